@@ -925,6 +925,8 @@ def install_modules(I):
     module('string', Formatter=Builtin('string.Formatter', lambda I_, a, k: Opaque('Formatter', {
         'parse': lambda I2, o, a2, k2: formatter_parse(I2, a2[0])})))
 
+    for stub in ('configparser', 'logging.handlers', 'logging.config', 'pathlib', 'signal', 'traceback', 'getpass', 'typing', 'abc', 'select', 'shutil'):
+        module(stub)
     module('sys', path=PyList([]), argv=PyList([]), stdout=Opaque('stdout'))
     module('argparse')
     module('os', linesep='\n')
